@@ -5,6 +5,7 @@ import (
 	"hash"
 	"math"
 
+	"github.com/free5gc/ike/internal/verifhook"
 	"github.com/pkg/errors"
 )
 
@@ -31,6 +32,7 @@ func PKCS7Padding(plainText []byte, blockSize int) ([]byte, error) {
 func PrfPlus(prf hash.Hash, s []byte, streamLen int) []byte {
 	var stream, block []byte
 	for i := 1; len(stream) < streamLen; i++ {
+		verifhook.At("lib.prfplus.block", streamLen-len(stream))
 		prf.Reset()
 		if _, err := prf.Write(append(append(block, s...), byte(i))); err != nil {
 			return nil
